@@ -18,6 +18,8 @@ def run(res, pool, tier, seed):
         jobs = [dict(module="MC_BodyBody.tla", tag="catalogue", invariants=INVS, timeout=10000, batch=40,
                      constants=dict(S=2, BODIES1=allb, BODIES2=allb, T=2, SEED=sd, NSHARD=3))]
     engine.run_jobs(res, jobs, pool)
+    import traces
+    traces.run_for(res, ["unit_tests", "driver"] if tier != "quick" else ["unit_tests"], {"C03"}, seed=seed + 2, nsessions=2500)
 
 
 def replay_case(case, tag, rng, tier):
